@@ -394,10 +394,7 @@ func (w *World) callSSA(caller *frame, callpos token.Pos, fn *ssa.Function, args
 	}
 	defer func() { w.depth-- }()
 	if fn.Parent() == nil {
-		name := fn.String()
-		if fn.Origin() != nil {
-			name = fn.Origin().String()
-		}
+		name := fnExternName(fn)
 		if ext := externals[name]; ext != nil {
 			return ext(fr, args)
 		}
